@@ -9,7 +9,9 @@ from ..netmc import Scenario
 PROP = 'C13'
 TOKENS = [b'a', b'b.txt', b'/', b'.', b'..', b'%2e%2e', b'%2f', b'?x', b'?../', b'root-evil', b'secret.txt']
 FILES_IN = {'a/b.txt': b'INSIDE-a-b ' + b'x' * 40, 'b.txt': b'INSIDE-b', 'a/a': b'INSIDE-a-a',
-            'big.bin': b'INSIDE-big ' + bytes(range(256)) * 8}
+            'big.bin': b'INSIDE-big ' + bytes(range(256)) * 8,
+            # sizes around --min-compression-length 20, and an empty file
+            'e.txt': b'', 't19.txt': b'INSIDE-19-' + b'y' * 9, 't20.txt': b'INSIDE-20-' + b'y' * 10, 't21.txt': b'INSIDE-21-' + b'y' * 11}
 FILES_OUT = {'secret.txt': b'OUTSIDE-SECRET-SENTINEL ' + b's' * 40, 'root-evil/b.txt': b'OUTSIDE-EVIL-SENTINEL',
              'a': b'OUTSIDE-A-SENTINEL', 'b.txt': b'OUTSIDE-B-SENTINEL'}
 SENTINELS = [b'OUTSIDE-SECRET-SENTINEL', b'OUTSIDE-EVIL-SENTINEL', b'OUTSIDE-A-SENTINEL', b'OUTSIDE-B-SENTINEL']
@@ -94,7 +96,7 @@ class Lazy:
         for p in (b'/../secret.txt', b'/a/../../secret.txt', b'/./../secret.txt', b'/a/b.txt/../../../secret.txt',
                   b'/../root-evil/b.txt', b'/..%2fsecret.txt', b'/%2e%2e/secret.txt', b'/..;/secret.txt',
                   b'/a/../b.txt', b'/a/./b.txt', b'/a//b.txt', b'/b.txt?../secret.txt', b'/../root/b.txt',
-                  b'/big.bin', b'/a/b.txt', b'/a/a', b'/..', b'/../a', b'/../b.txt', b'/a/../../a', b'/a/../../b.txt',
+                  b'/big.bin', b'/a/b.txt', b'/a/a', b'/e.txt', b'/t19.txt', b'/t20.txt', b'/t21.txt', b'/e.txt?x', b'/a/../t20.txt', b'/..', b'/../a', b'/../b.txt', b'/a/../../a', b'/a/../../b.txt',
                   # a query whose text walks back into the root by name must not whitewash the path before it
                   b'/../secret.txt?/../root', b'/../secret.txt?/../root/b.txt', b'/a/../../secret.txt?x/../root/a',
                   b'/../root-evil/b.txt?/../../root', b'/../secret.txt?../root', b'/../b.txt?/../root/a/b.txt',
